@@ -92,9 +92,14 @@ class CallFunction(Node):
             
             params: LoadListOperation = cast(LoadListOperation, self.parameters)
             if 'sound' == self.name:
-                modif: Node = params.operands.pop()
+                # The modifier is the last operand: read it without removing
+                # it from the (shared) operand list
+                last: int = len(params.operands) - 1
+                modif: Node = params.operands[last]
+                rest = LoadListOperation(params.name, params.position)
+                rest.operands = params.operands[0:last]
                 return vsprintf("sound %s %s", modif.name,
-                                      params.generate_lingo(indentation))
+                                      rest.generate_lingo(indentation))
             
             if self.use_parenthesis:
                 return self.name + '('+params.generate_lingo(indentation)+')'
